@@ -39,7 +39,8 @@ type tokenState struct {
 	token  string
 	nonce  []byte // decoded token = request nonce
 	id     string
-	status string // outstanding | used | expired
+	status string        // outstanding | used
+	age    time.Duration // how long ago the token was (re-)dated
 }
 
 type recipe struct {
@@ -200,11 +201,12 @@ func TestProp_Enrollment(t *testing.T) {
 				if err != nil {
 					t.Fatalf("load token: %v", err)
 				}
-				ent.CreationTime = vkit.TS(time.Now().Add(-15 * 24 * time.Hour))
+				age := rapid.SampledFrom([]time.Duration{2 * time.Hour, 15 * 24 * time.Hour}).Draw(t, "age")
+				ent.CreationTime = vkit.TS(time.Now().Add(-age))
 				if err := ent.Store(w.Ctx, w.Inner, w.O()...); err != nil {
 					t.Fatalf("store aged token: %v", err)
 				}
-				tk.status = "expired"
+				tk.age = age
 				hist = append(hist, "age-token")
 				opsBefore++
 			},
@@ -345,6 +347,8 @@ func TestProp_Enrollment(t *testing.T) {
 				}
 				nonce := ca.Nonce
 				var tok *tokenState
+				maxLife := nodeenrollment.DefaultMaximumServerLedActivationTokenLifetime
+				tokExpired := false
 				switch {
 				case r.Nonce == "other-actor":
 					o := pick("nonceOf")
@@ -365,7 +369,14 @@ func TestProp_Enrollment(t *testing.T) {
 						}
 					}
 					nonce = tok.nonce
+					// the server's maximum token lifetime for this fetch
+					maxLife = rapid.SampledFrom([]time.Duration{nodeenrollment.DefaultMaximumServerLedActivationTokenLifetime, time.Hour, 5 * 365 * 24 * time.Hour}).Draw(t, "maxTokenLifetime")
+					tokExpired = tok.age > maxLife
 					r.Nonce = "token-" + tok.status
+					if tok.status == "outstanding" && tokExpired {
+						r.Nonce = "token-expired"
+					}
+					r.Nonce += fmt.Sprintf("(age %v, max lifetime %v)", tok.age, maxLife)
 				}
 				info := vkit.InfoFor(ca.CertPkix, encPub, nonce, time.Now().Add(-time.Second), time.Now().Add(time.Hour))
 				// wrapped registration info
@@ -399,6 +410,11 @@ func TestProp_Enrollment(t *testing.T) {
 					}
 				case "garbage":
 					info.WrappedRegistrationInfo = rnd(40)
+					if rapid.Bool().Draw(t, "structuredGarbage") {
+						// a well-formed envelope whose ciphertext is too short for any cipher
+						n := rapid.IntRange(0, 16).Draw(t, "ciphertextLen")
+						info.WrappedRegistrationInfo = append([]byte{0x0a, byte(n)}, rnd(n)...)
+					}
 				}
 				req := vkit.Sign(info, ca.CertPriv)
 				// re-wrapped info (outside the signed bundle)
@@ -510,13 +526,24 @@ func TestProp_Enrollment(t *testing.T) {
 					}
 				default:
 					r.Path = "(b) activation token"
-					qualifies = tok != nil && tok.status == "outstanding" && existing == nil
-					oneOff = !qualifies && tok != nil && (tok.status != "outstanding") != (existing != nil)
+					qualifies = tok != nil && tok.status == "outstanding" && !tokExpired && existing == nil
+					oneOff = !qualifies && tok != nil && ((tok.status != "outstanding" || tokExpired) != (existing != nil))
 				}
 				r.Expect = map[bool]string{true: "credentials", false: "refused"}[qualifies]
 
 				before := nodeSnap()
-				resp, err := registration.FetchNodeCredentials(w.Ctx, w.Store, req, serverOpts()...)
+				var resp *types.FetchNodeCredentialsResponse
+				var err error
+				if pv, stack := vkit.Guard(func() {
+					resp, err = registration.FetchNodeCredentials(w.Ctx, w.Store, req, append(serverOpts(), nodeenrollment.WithMaximumServerLedActivationTokenLifetime(maxLife))...)
+				}); pv != nil {
+					key := "C01/panic/other"
+					if strings.Contains(stack, "DecryptWrappedRegistrationInfo") {
+						key = "C01/panic/wrapped-registration-info"
+					}
+					vkit.Violate(t, prop, key, fmt.Sprintf("FetchNodeCredentials panicked instead of refusing the request: %v", pv), map[string]any{"request": r, "history": hist, "stack": stack})
+					return
+				}
 				got := err == nil && resp != nil && len(resp.EncryptedNodeCredentials) > 0
 				r.Got = map[bool]string{true: "credentials", false: "refused"}[got]
 				if err != nil {
@@ -530,7 +557,7 @@ func TestProp_Enrollment(t *testing.T) {
 				detail := map[string]any{"request": r, "history": hist, "backend": backend.String(), "registration_wrapper": regName}
 
 				// token bookkeeping: a valid token is consumed by the attempt itself
-				if r.Path == "(b) activation token" && tok != nil && tok.status == "outstanding" {
+				if r.Path == "(b) activation token" && tok != nil && tok.status == "outstanding" && !tokExpired {
 					tok.status = "used"
 				}
 				if either {
